@@ -134,22 +134,29 @@ let run_for (which : string) (path : string) =
   let judge (impl : lstate) (ml : lstate) =
     let c = cfg () in
     let extf d = (match Hashtbl.find_opt ext (zs d) with Some x -> x | None -> z0) in
+    (* C01: the identity of the property text on the implementation's observation.  A failure is inside a
+       known-finding class exactly when the ghost-corrected identity (proved for every history:
+       Properties/C01.v c01_adjusted_predicate_holds) still holds on the observation and the ghost of that
+       class is not zero; any other failure is reported with kf=none *)
+    ignore ml;
     if want "C01-life" && not (holds_C01_life c !denoms impl) then begin
       L.iter (fun d ->
           if not (c01l_custody c impl d) then
-            predfail ~case:!case ~step:!step ~pred:"c01_custody" ~kf:(if kf_C01_4_denom ml d then "kf_C01_4" else "none")
+            predfail ~case:!case ~step:!step ~pred:"c01_custody"
+              ~kf:(if c01l_custody_adj c impl d && kf_C01_4_denom impl d then "kf_C01_4" else "none")
               ~detail:(Printf.sprintf "denom=%s_custody=%s_recorded=%s_unsolicited=%s" (zs d) (zs (impl.vs.bal coq_VAULT d)) (zs (coll_sum c impl.vs d)) (zs (impl.vs.unsol d)))) !denoms;
       if not (c01l_count impl) then
         predfail ~case:!case ~step:!step ~pred:"c01_count" ~kf:"none" ~detail:(Printf.sprintf "length=%s_open=%d" (zs impl.vs.vlen) (L.length impl.vs.vaults));
       L.iter (fun (e : epair) ->
           let a = e.ep_app and p = e.ep_id in
           if not (c01l_coll impl a p) then
-            predfail ~case:!case ~step:!step ~pred:"c01_collateral_locked" ~kf:(if kf_C01_4_prod ml a p then "kf_C01_4" else "none")
+            predfail ~case:!case ~step:!step ~pred:"c01_collateral_locked"
+              ~kf:(if c01l_coll_adj impl a p && kf_C01_4_prod impl a p then "kf_C01_4" else "none")
               ~detail:(Printf.sprintf "app=%s_pair=%s_published=%s_open=%s_awaiting=%s" (zs a) (zs p) (C01.show_prod (impl.vs.prods a p)) (zs (prod_coll_sum impl.vs a p)) (zs (lock_coll impl a p)));
           if not (c01l_mint impl a p) then
             predfail ~case:!case ~step:!step ~pred:"c01_tokens_minted"
-              ~kf:(if kf_C01_4_prod ml a p then "kf_C01_4" else if kf_C01_2 ml a p then "kf_C01_2" else "none")
-              ~detail:(Printf.sprintf "app=%s_pair=%s_published=%s_open=%s_awaiting=%s" (zs a) (zs p) (C01.show_prod (impl.vs.prods a p)) (zs (prod_mint_sum impl.vs a p)) (zs (lock_prin impl a p)));
+              ~kf:(if not (c01l_mint_adj impl a p) then "none" else if kf_C01_4_prod impl a p then "kf_C01_4" else if kf_C01_2 impl a p then "kf_C01_2" else "none")
+              ~detail:(Printf.sprintf "app=%s_pair=%s_published=%s_open=%s_awaiting=%s_drift=%s" (zs a) (zs p) (C01.show_prod (impl.vs.prods a p)) (zs (prod_mint_sum impl.vs a p)) (zs (lock_prin impl a p)) (zs (impl.drift a p)));
           if not (c01l_ids impl a p) then
             predfail ~case:!case ~step:!step ~pred:"c01_vault_ids" ~kf:"none" ~detail:(Printf.sprintf "app=%s_pair=%s_published=%s" (zs a) (zs p) (C01.show_prod (impl.vs.prods a p)))) !eps
     end;
@@ -233,6 +240,7 @@ let run_for (which : string) (path : string) =
               if nl > 0 then begin seized := !seized + nl; bump ("seized_by:" ^ kind) end;
               (match o with
                | AucTick ->
+                 if kf_C01_4 m true then bump "auctick:in_class_kf_C01_4";
                  if L.exists2 (fun (a : auct) (b : auct) -> a.au_end <> b.au_end) m.aus m'.aus then bump "auctick:restart";
                  if L.length m'.vs.vaults <> L.length m.vs.vaults || m'.vs.vaults <> m.vs.vaults then bump "auctick:esm_return"
                | _ -> ());
